@@ -75,7 +75,7 @@ fn main() {
         }
         "C07" => props_e1::c07(&args),
         "C08" => props_e1::c08(&args),
-        "C09" => seq_segments::run(&args),
+        "C09" => props_e1::c09(&args),
         "C10" => props_e1::c10(&args),
         "C11" => props_e2::c11(&args),
         "C12" => en_paths::run(&args),
